@@ -732,6 +732,8 @@ def d_features(case, text):
     f = set()
     if "\\" in text:
         f.add("escape")
+    if "\\\\" in text:
+        f.add("escaped_backslash")
 
     def walk(t, top):
         k = t[0]
@@ -1057,23 +1059,17 @@ def known_typeparser_grammar_gaps(case, vio):
     return bool(f & {"primitive_outside_grammar", "empty_record", "named_tuple", "record_name_not_letters", "record_name_is_grammar_word"})
 
 
-def known_typeparser_json_literals(case, vio):
-    """the parser does not unescape JSON strings (keys, parameter strings), cannot lex an escaped backslash or solidus, and reads
-    numbers with an exponent through int()"""
-    if case["part"] != "D":
+def known_typeparser_escaped_backslash(case, vio):
+    """the string token of type-grammar.lark has no alternative for an escaped backslash: a type string with a backslash in a key, a
+    parameter name or a parameter string is refused by the lexer"""
+    if case["part"] != "D" or not vio["bucket"].startswith("D:parse_error:Unexpected"):
         return False
-    f = d_features(case, _d_text(case))
-    b = vio["bucket"]
-    if "escape" in f and (b.startswith("D:parse_error:Unexpected") or b in ("D:reprint", "D:not_equal", "D:structure")):
-        return True
-    if "number_exponent" in f and b == "D:parse_error:ValueError":
-        return True
-    return False
+    return "escaped_backslash" in d_features(case, _d_text(case))
 
 
 KNOWN = {
     "numpyform_format_lost": known_numpyform_format,
     "typeparser_toplevel_regular": known_typeparser_toplevel_regular,
     "typeparser_grammar_gaps": known_typeparser_grammar_gaps,
-    "typeparser_json_literals": known_typeparser_json_literals,
+    "typeparser_escaped_backslash": known_typeparser_escaped_backslash,
 }
